@@ -78,13 +78,19 @@ def gen_description(rnd):
     pool = ctype_pool()
     nparts = rnd.choice([2, 3, 3, 4, 5, 6, 8, 11, 14])
     dirs = ["", "ppt", "ppt/slides", "ppt/slidesX", "ppt/media", "a", "a/b/c/d", "customXml", "UP/Case", "a.b"]
-    exts = ["xml", "bin", "bin", "png", "PNG", "jpg", "jpeg", "JPE", "tif", "dat", "", "a.b", "xlsx", "XML", "gif"]
+    exts = ["xml", "bin", "bin", "BIN", "Bin", "png", "PNG", "jpg", "JPG", "jpeg", "JPE", "tif", "TIFF", "dat", "", "a.b", "xlsx", "XML", "gif"]
     parts = []
     used = set()
     for i in range(nparts):
         for _ in range(30):
             d = rnd.choice(dirs)
             ext = rnd.choice(exts)
+            if parts and rnd.random() < 0.25:
+                # same extension as an earlier part up to case (content types resolve case-insensitively)
+                e0 = parts[rnd.randrange(len(parts))]["name"].rsplit("/", 1)[1]
+                if "." in e0:
+                    e0 = e0.rsplit(".", 1)[1]
+                    ext = rnd.choice([e0.upper(), e0.lower(), e0.capitalize()])
             stem = rnd.choice(["part", "slide", "image", "item", "x", "Part", "[x]", "p-q_r"]) + rnd.choice(["", "1", "2", "7", "21", "007"])
             fn = stem + ("." + ext if ext else "")
             name = "/" + (d + "/" if d else "") + fn
